@@ -2263,14 +2263,18 @@ class TypeBlocks(ContainerOperand):
             key: if a single value, treated as a row key; if a tuple, treated as a pair of row, column keys.
         '''
         if isinstance(key, tuple):
-            # column dropping can leed to a TB with generator that yields nothing;
-            return TypeBlocks.from_blocks(
-                    self._drop_blocks(*key),
-                    shape_reference=self._shape
-                    )
+            row_key, column_key = key
+        else:
+            row_key, column_key = key, None
+
+        # column dropping can leed to a TB with generator that yields nothing; the row count then comes from the shape reference, which must be the number of rows that remain, not the number of rows available
+        row_count = self._shape[0]
+        if row_key is not None:
+            row_count = len(np.delete(np.empty(row_count, dtype=bool), row_key))
+
         return TypeBlocks.from_blocks(
-                self._drop_blocks(row_key=key),
-                shape_reference=self._shape
+                self._drop_blocks(row_key=row_key, column_key=column_key),
+                shape_reference=(row_count, self._shape[1])
                 )
 
 
